@@ -98,7 +98,9 @@ def run(ctx):
             "coverage": {"evaluations": len(cases), "distinct_nontrivial": nt,
                          "rule": "elbo: random @gen targets with 2-4 dyadic categorical sites (parent-dependent), random observed subsets, a variational family over the "
                                  "latent addresses (20%: also over an observed address, to exercise merge precedence) built from a REINFORCE primitive with scripted outcomes; "
-                                 "elbo_factory(...).estimate(params) in units of ln 2 compared exactly with the model and with log p(merged) - log q(z) from the spec densities. "
+                                 "elbo_factory(...).estimate(params) in units of ln 2 compared exactly with the model and with log p(merged) - log q(z) from the spec densities; also structured families "
+                                 "(random nested @gen functions and Cond with shared / hierarchical addresses over tape-stub distributions bound to a score-function primitive; the target is the same "
+                                 "sub-program at other arguments followed by an observed site depending on its return value). "
                                  "fam: mean_field_normal_family / full_covariance_normal_family (reparam) in 2-3 dimensions with scripted noise on a conjugate linear-Gaussian target: "
                                  "ELBO value and directional derivative w.r.t. mean and (off-diagonal) Cholesky factor compared with x = mean + chol @ eps in exact rationals (tolerance 1e-3). "
                                  "gradient: composed flip programs with REINFORCE / MVD / enumeration sites and scripted outcomes, and batched reparameterised sites, judged as in C11 (the estimator optimize_vi ascends). "
@@ -108,5 +110,7 @@ def run(ctx):
                                        "full_cov_offdiag": sum(1 for c in cases if c.get("kind") == "fam" and c.get("full") and "C" in c
                                                                and any(c["C"][i][j] for i in range(c["nd"]) for j in range(i))),
                                        "overlap": sum(1 for c in cases if c.get("overlap")),
+                                       "structured_family": sum(1 for c in cases if c.get("nested")),
+                                       "structured_family_with_cond": sum(1 for c in cases if c.get("nested") and c.get("has_cond")),
                                        "errors": Counter(c.get("err", "")[:70] for c in cases if "err" in c)},
                          "samples": cases[:1] + [c for c in cases if c["kind"] == "vi"][:1]}}
